@@ -27,13 +27,26 @@ def _mk_box(P, box):
     return float(box[0]), float(box[1])
 
 
-def h_repair(P, method, box, K=3, region=None):
+def h_repair(P, method, box, K=3, region=None, near=None, J=4):
     """region=None: in-box and fix-point obligations for every g within 2^K ranges of the box.
     region=k: prescribed-movement (congruence) obligation for g in the k-th translate of the box."""
     from pyhms.demes.single_pop_eas.common import apply_bounds
 
     lo, hi = _mk_box(P, box)
-    g = P.float("g", finite=True)
+    if near is not None:
+        # inputs within 16 ulps of the near-th multiple of the range counted from the lower face (faces, one ulp outside,
+        # exact multiples of the range).  g = b advanced by j ulps, j a symbolic integer in [-16, 16]
+        rng = Fraction(hi) - Fraction(lo)
+        b = float(Fraction(lo) + near * rng)
+        j = P.int("j", -J, J)
+        if method == "reflect" and not P.concrete:
+            # the FP division inside floor_divide makes even a 2J+1-point query take minutes; fork over the offsets
+            # instead (one path per input point, obligations folded to constants by the simplifier over the same encoding)
+            import operator
+            j = operator.index(j)
+        g = _ulp_offset(P, b, j)
+    else:
+        g = P.float("g", finite=True)
     if region is not None:
         rng = Fraction(hi) - Fraction(lo)
         a, b = float(Fraction(lo) + region * rng), float(Fraction(lo) + (region + 1) * rng)
@@ -45,7 +58,12 @@ def h_repair(P, method, box, K=3, region=None):
     r = out[0, 0]
     P.observe("r", r)
     inside = land(lo <= g, g <= hi)
-    if region is None:
+    if near is not None:
+        P.oblige(f"{method}.inbox", land(lo <= r, r <= hi))
+        P.oblige(f"{method}.fixpoint", implies(inside, r == g))
+        if method != "clip":
+            P.oblige(f"{method}.congruent", _congruent(P, method, lo, hi, g, r, K, (near - 2, near - 1, near, near + 1)))
+    elif region is None:
         P.oblige(f"{method}.inbox", land(lo <= r, r <= hi))
         if box is not None:
             tol = 4 * math.ulp(max(abs(lo), abs(hi)))
@@ -55,9 +73,30 @@ def h_repair(P, method, box, K=3, region=None):
         d = r - g
         P.oblige(f"{method}.fixpoint", implies(inside, land(d <= tol, d >= -tol)))
         if method == "clip":
-            P.oblige("clip.nearest_face", land(implies(g < lo, r == lo), implies(g > hi, r == hi), implies(inside, same_bits(r, g))))
+            P.oblige("clip.nearest_face", land(implies(g < lo, r == lo), implies(g > hi, r == hi), implies(inside, r == g)))
     else:
         P.oblige(f"{method}.congruent", _congruent(P, method, lo, hi, g, r, K, (region - 1, region, region + 1)))
+
+
+def _ulp_offset(P, b, j):
+    """the float64 j ulps above (j>0) / below (j<0) b, as a term over the symbolic integer j (IEEE bit arithmetic)."""
+    import struct
+
+    if b == 0.0:
+        b = 5e-324 * 32  # stay on one side of zero: the 33 values 16..48 denormal steps above zero
+    bits = struct.unpack("<Q", struct.pack("<d", b))[0]
+    if P.concrete:
+        nb = bits + j if b > 0 else bits - j
+        return struct.unpack("<d", struct.pack("<Q", nb))[0]
+    import z3
+    from symx.core import SFloat, is_sym
+
+    if not is_sym(j):
+        nb = bits + j if b > 0 else bits - j
+        return struct.unpack("<d", struct.pack("<Q", nb))[0]
+    off = z3.SignExt(32, j.e)
+    e = z3.BitVecVal(bits, 64) + off if b > 0 else z3.BitVecVal(bits, 64) - off
+    return SFloat(None, True, z3.simplify(e))
 
 
 def _congruent(P, method, lo, hi, g, r, K, ks):
@@ -70,10 +109,18 @@ def _congruent(P, method, lo, hi, g, r, K, ks):
         G, R = Fraction(g), Fraction(r)
         if method == "toroidal":
             return any(abs(R - (G - k * rng)) <= tol for k in ks)
-        return any(abs(R - (G - k * rng)) <= tol or abs(R - (2 * Fraction(lo) + k * rng - G)) <= tol for k in ks)
+        ev = [k for k in range(min(ks) - 1, max(ks) + 2) if k % 2 == 0]
+        return any(abs(R - (G - k * rng)) <= tol or abs(R - (2 * Fraction(lo) + k * rng - G)) <= tol for k in ev)
     import z3
-    from symx.core import SBool, RNE
+    from symx.core import SBool, RNE, lift_float, is_sym
 
+    if not is_sym(g) and not is_sym(r):
+        G, R = Fraction(float(g)), Fraction(float(r))
+        if method == "toroidal":
+            return any(abs(R - (G - k * rng)) <= tol for k in ks)
+        ev = [k for k in range(min(ks) - 1, max(ks) + 2) if k % 2 == 0]
+        return any(abs(R - (G - k * rng)) <= tol or abs(R - (2 * Fraction(lo) + k * rng - G)) <= tol for k in ev)
+    g, r = lift_float(g), lift_float(r)
     T = z3.FPSort(15, 113) if SPEC128 else z3.Float64()
 
     def c128(fr):
@@ -83,11 +130,13 @@ def _congruent(P, method, lo, hi, g, r, K, ks):
     R = z3.fpFPToFP(RNE, r.e, T) if SPEC128 else r.e
     tolc = c128(tol)
     ds = []
+    if method != "toroidal":
+        # reflect: r = g - 2m*range (even translation) or r = 2*(lower + m*range) - g (mirror about a face): even multiples only
+        ks = [k for k in range(min(ks) - 1, max(ks) + 2) if k % 2 == 0]
     for k in ks:
         if method == "toroidal":
             cands = [z3.fpSub(RNE, G, c128(k * rng))]
         else:
-            # even k: translate by k*range; odd k: mirror about the face between translates (k even multiples either way)
             cands = [z3.fpSub(RNE, G, c128(k * rng)), z3.fpSub(RNE, c128(2 * Fraction(lo) + k * rng), G)]
         for cnd in cands:
             ds.append(z3.fpLEQ(z3.fpAbs(z3.fpSub(RNE, R, cnd)), tolc))
@@ -146,6 +195,15 @@ def cases(tier):
                 cs.append(dict(name=f"congruent.{method}.box{tuple(box)}.k{region}", fn=h_repair,
                                params=dict(method=method, box=list(box), K=Kc, region=region), profile="fp", portfolio=True, fmod_K=Kc,
                                oblig_timeout_s=T, cores=3, weight=3, soft=["*.congruent"]))
+    # boundary inputs: within J ulps of every multiple of the range up to 2^K ranges away (faces, exact multiples)
+    nboxes = [(0.1, 0.7), (-0.1, 0.2), (-5.12, 5.12)] if tier == "quick" else CATALOGUE + [(-5.12, 5.12)]
+    J = 4 if tier == "quick" else 16
+    for method in ("toroidal", "reflect"):
+        for box in nboxes:
+            for near in range(-(2**K) + 1, 2**K):
+                cs.append(dict(name=f"near.{method}.box{tuple(box)}.m{near}", fn=h_repair,
+                               params=dict(method=method, box=list(box), K=K, near=near, J=J), profile="fp", portfolio=(method == "toroidal"),
+                               fmod_K=K, oblig_timeout_s=T, separate=True, cores=3 if method == "toroidal" else 1, weight=1))
     if tier == "thorough":
         for method in ("toroidal", "reflect"):
             cs.append(dict(name=f"repair.{method}.symbolic-box", fn=h_repair, params=dict(method=method, box=None, K=K),
